@@ -27,10 +27,15 @@ struct Cfg {
     /// (variant, rule, finding id): harnesses expected to fail (known findings)
     known: Vec<(String, String, String)>,
     kinds_given: bool,
+    /// input length for the kinds that build the tree (c02 c03 c04 c15 and option variants); default = n
+    nparse: Option<(usize, usize)>,
+    /// run on the real pest::Stack (no stub set S): needed where PEEK_ALL / POP_ALL / PEEK[a..b] index the stack
+    /// (Index trait impls cannot be stubbed); only for straight-line rules without enclosing snapshots
+    real_stack: bool,
 }
 
 fn header(text: &str) -> Cfg {
-    let mut c = Cfg { alphabet: "abx".into(), n: (3, 4), entries: None, kinds: vec!["c01".into()], variants: vec![], unwind: None, known: vec![], kinds_given: false };
+    let mut c = Cfg { alphabet: "abx".into(), n: (3, 4), entries: None, kinds: vec!["c01".into()], variants: vec![], unwind: None, known: vec![], kinds_given: false, nparse: None, real_stack: false };
     for l in text.lines() {
         let l = l.trim();
         if let Some(r) = l.strip_prefix("//! alphabet:") {
@@ -39,6 +44,11 @@ fn header(text: &str) -> Cfg {
         } else if let Some(r) = l.strip_prefix("//! n:") {
             let v: Vec<usize> = r.split_whitespace().map(|x| x.parse().unwrap()).collect();
             c.n = (v[0], *v.get(1).unwrap_or(&v[0]));
+        } else if let Some(r) = l.strip_prefix("//! stack:") {
+            c.real_stack = r.trim() == "real";
+        } else if let Some(r) = l.strip_prefix("//! nparse:") {
+            let v: Vec<usize> = r.split_whitespace().map(|x| x.parse().unwrap()).collect();
+            c.nparse = Some((v[0], *v.get(1).unwrap_or(&v[0])));
         } else if let Some(r) = l.strip_prefix("//! entries:") {
             c.entries = Some(r.split_whitespace().map(String::from).collect());
         } else if let Some(r) = l.strip_prefix("//! kinds:") {
@@ -229,25 +239,31 @@ fn main() {
         let text = fs::read_to_string(corpus.join(format!("{}.pest", name))).unwrap();
         let out = generate(name, &text);
         fs::write(outdir.join(format!("{}.rs", name)), out).unwrap();
-        writeln!(modrs, "pub mod {};", name).unwrap();
+        writeln!(modrs, "{}pub mod {};", gate(name), name).unwrap();
     }
     writeln!(modrs, "\npub fn register(v: &mut Vec<(&'static str, &'static str, fn())>) {{").unwrap();
     for name in &names {
-        writeln!(modrs, "    {}::register(v);", name).unwrap();
+        writeln!(modrs, "    {}{}::register(v);", gate(name), name).unwrap();
     }
     writeln!(modrs, "}}").unwrap();
     writeln!(modrs, "\n#[cfg(not(kani))]\npub fn validators() -> Vec<(&'static str, fn() -> crate::grel::Validation)> {{\n    vec![").unwrap();
     for name in &names {
-        writeln!(modrs, "        ({:?}, {}::validate as fn() -> crate::grel::Validation),", name, name).unwrap();
+        writeln!(modrs, "        {}({:?}, {}::validate as fn() -> crate::grel::Validation),", gate(name), name, name).unwrap();
     }
     writeln!(modrs, "    ]\n}}").unwrap();
     writeln!(modrs, "\npub fn grammar_text(name: &str) -> &'static str {{\n    match name {{").unwrap();
     for name in &names {
-        writeln!(modrs, "        {:?} => {}::GRAMMAR,", name, name).unwrap();
+        writeln!(modrs, "        {}{:?} => {}::GRAMMAR,", gate(name), name, name).unwrap();
     }
     writeln!(modrs, "        _ => \"\",\n    }}\n}}").unwrap();
     fs::write(outdir.join("mod.rs"), modrs).unwrap();
     println!("refgen: {} grammars", names.len());
+}
+
+/// compile-only recursive grammars are built only with `--features rec` (C20), so that a change that breaks
+/// their compilation cannot take the other properties' checks down with it
+fn gate(name: &str) -> &'static str {
+    if name.starts_with("rec_") { "#[cfg(feature = \"rec\")] " } else { "" }
 }
 
 fn variant_attrs(v: &str) -> &'static str {
@@ -382,14 +398,18 @@ fn generate(name: &str, text: &str) -> String {
     writeln!(o, "harnesses! {{").unwrap();
     let has_stack = text.contains("PUSH") || text.contains("PEEK") || text.contains("POP") || text.contains("DROP");
     let _ = has_stack;
-    for (tier, n) in [("Q", cfg.n.0), ("T", cfg.n.1)] {
-        if tier == "T" && cfg.n.1 == cfg.n.0 {
-            continue;
-        }
-        let unwind = cfg.unwind.unwrap_or((n + 2).max(cfg.alphabet.len() + 1));
+    for (tier, ti) in [("Q", 0usize), ("T", 1usize)] {
         for r in &entries {
             for k in &cfg.kinds {
                 for v in &variants {
+                    let tree_kind = k != "c01" || v != "default";
+                    let np = cfg.nparse.unwrap_or(cfg.n);
+                    let (nq, nt) = if tree_kind { np } else { cfg.n };
+                    let n = if ti == 0 { nq } else { nt };
+                    if ti == 1 && nq == nt {
+                        continue;
+                    }
+                    let unwind = cfg.unwind.unwrap_or((n + 2).max(cfg.alphabet.len() + 1));
                     // option variants (C20): one harness per variant and rule, tokens if the grammar asks for them, offsets otherwise
                     let is_variant = v != "default";
                     if is_variant && k != &cfg.kinds[0] {
@@ -427,10 +447,11 @@ fn generate(name: &str, text: &str) -> String {
                     if known.is_some() && tier == "T" {
                         continue;
                     }
-                    writeln!(o, "    #[kani::unwind({uw})] fn {h}() [T0 S F] : \"{tier}|corpus grammar {g}, entry rule {r}{vdesc}: {what}; every input of {n} bytes over {alpha}{kdesc}\" {{\n        let buf = nd::ascii_buf::<{n}>(ALPHABET);\n        crate::grel::{func}::<typed_{v}::Rule, typed_{v}::rules::r#{r}<'_, 1>, reference::r_{r}<1>, {skt}{n}>(&buf{extra})\n    }}",
+                    writeln!(o, "    #[kani::unwind({uw})] fn {h}() [{stubs}] : \"{tier}|corpus grammar {g}, entry rule {r}{vdesc}: {what}; every input of {n} bytes over {alpha}{kdesc}\" {{\n        let buf = nd::ascii_buf::<{n}>(ALPHABET);\n        crate::grel::{func}::<typed_{v}::Rule, typed_{v}::rules::r#{r}<'_, 1>, reference::r_{r}<1>, {skt}{n}>(&buf{extra}, {real})\n    }}",
                         uw = unwind, h = hname, tier = t, g = name, r = r.name, vdesc = vdesc, what = what, n = n,
                         alpha = format!("{:?}", cfg.alphabet).replace('"', "'").replace("\\", "/"), kdesc = kdesc,
-                        func = func, v = v, extra = extra, skt = if kk == "c04" { "reference::SK, " } else { "" }).unwrap();
+                        func = func, v = v, extra = extra, skt = if kk == "c04" { "reference::SK, " } else { "" },
+                        stubs = if cfg.real_stack { "T0 F" } else { "T0 S F" }, real = cfg.real_stack).unwrap();
                 }
             }
         }
